@@ -240,9 +240,6 @@ Proof.
     + destruct ow; [|reflexivity]. cbn [negb] in H. destruct (p2sh_signable keys (m, n)); [auto|discriminate].
     + discriminate.
 Qed.
-(** which inputs can be signed *)
-Definition signable_kind (keys : list Z) (k : tkind) : bool :=
-  match k with KPkh => true | KSh m n => p2sh_signable keys (m, n) | KRaw => false end.
 Lemma sign_check_ok ow keys ks u : sign_check ow keys ks = Ok u ->
   ow = true /\ forallb (signable_kind keys) ks = true.
 Proof.
@@ -709,7 +706,7 @@ Lemma build_cb_ok_inv r b : r_coinbase r = true -> build r = Ok b ->
 Proof.
   unfold build. intros CB H. destruct (deferral_refused r); [discriminate|].
   destruct (run_ops r [] (r_ops r) (init_hdr r) 0) as [hd| |] eqn:R; try discriminate.
-  rewrite CB in H. apply finish_cb_ok_inv in H. exists hd. tauto.
+  rewrite CB in H. destruct (is_pczt r); [discriminate|]. apply finish_cb_ok_inv in H. exists hd. tauto.
 Qed.
 
 Section AssembledCb.
@@ -997,7 +994,8 @@ Proof.
       split; intros a Ha; discriminate. }
   destruct (run_ops_hdr _ _ R) as (_ & _ & F).
   destruct (r_coinbase r).
-  { apply finish_cb_err in H. destruct H as [C|(_ & [[-> _]|[[-> _]|[->|[->| ->]]]])];
+  { destruct (is_pczt r); [inversion H; split; intros a Ha; discriminate|].
+    apply finish_cb_err in H. destruct H as [C|(_ & [[-> _]|[[-> _]|[->|[->| ->]]]])];
       try (split; intros a Ha; discriminate).
     apply check_version_some in C. destruct C as [[p ->] _]. split; intros a Ha; discriminate. }
   apply finish_err in H.
@@ -1037,7 +1035,8 @@ Proof.
   2:{ inversion H. subst e0. apply run_ops_err in R. destruct R as (k & o & e' & E & _). discriminate. }
   destruct (run_ops_hdr _ _ R) as (Hv & _ & _).
   destruct (r_coinbase r).
-  { apply finish_cb_err in H. destruct H as [C|(_ & [[E _]|[[E _]|[E|[E|E]]]])]; try discriminate.
+  { destruct (is_pczt r); [discriminate|].
+    apply finish_cb_err in H. destruct H as [C|(_ & [[E _]|[[E _]|[E|[E|E]]]])]; try discriminate.
     apply check_version_some in C. destruct C as [[q E] Rf]. inversion E. subst v.
     split; [exact Hv|exact Rf]. }
   apply finish_err in H.
@@ -1055,7 +1054,8 @@ Proof.
   destruct (deferral_refused r); [discriminate|].
   destruct (run_ops r [] (r_ops r) (init_hdr r) 0) as [hd|e0|] eqn:R; [| |discriminate].
   - destruct (r_coinbase r).
-    { apply finish_cb_err in H. destruct H as [C|(_ & [[E _]|[[E _]|[E|[E|E]]]])]; try discriminate.
+    { destruct (is_pczt r); [discriminate|].
+      apply finish_cb_err in H. destruct H as [C|(_ & [[E _]|[[E _]|[E|[E|E]]]])]; try discriminate.
       apply check_version_some in C. destruct C as [[q E] _]. discriminate. }
     apply finish_err in H.
     destruct H as [[E _]|(fee & Fe & [C|(C & [[E _]|(bal & V & Hc)])])]; try discriminate.
@@ -1085,18 +1085,23 @@ Proof.
   destruct (run_ops r [] (r_ops r) (init_hdr r) 0) as [hd|e0|] eqn:R; [|discriminate|].
   2:{ exfalso. eapply run_ops_not_panic; eauto. }
   destruct (run_ops_hdr _ _ R) as (Hv & _ & _).
-  unfold finish in H. unfold panic_class.
+  unfold panic_class. rewrite <- Hv.
+  destruct (r_coinbase r).
+  { unfold is_pczt in H. unfold finish_cb in H.
+    destruct (r_route r); try discriminate;
+      repeat match type of H with
+      | context [match ?x with _ => _ end] => destruct x
+      | context [if ?x then _ else _] => destruct x
+      end; try discriminate; reflexivity. }
+  unfold finish in H.
   destruct (fee_required (r_rule r) (req_shape r)); [|discriminate].
   destruct (check_version r (r_ops r) (fst hd)); [discriminate|].
   destruct (value_balance r) as [bal|e'|] eqn:V; [|discriminate|].
   - destruct (bal - z <? - MAX_MONEY); [discriminate|].
     destruct (bal - z <? 0); [discriminate|]. destruct (0 <? bal - z); [discriminate|].
-    rewrite <- Hv.
     destruct (r_route r).
-    + destruct (has_overwinter (fst hd)); [|reflexivity].
-      cbn [negb] in H. destruct (forallb _ _); discriminate.
-    + destruct (has_overwinter (fst hd)); [|reflexivity].
-      cbn [negb] in H. destruct (forallb _ _); discriminate.
+    + destruct (sign_check _ _ _) eqn:SC; try discriminate. apply sign_check_panic in SC. now rewrite SC.
+    + destruct (sign_check _ _ _) eqn:SC; try discriminate. apply sign_check_panic in SC. now rewrite SC.
     + destruct (e_sap (env_of r) && negb (zip212_on (r_net r) (r_height r))); discriminate.
     + destruct (e_sap (env_of r) && negb (zip212_on (r_net r) (r_height r))); discriminate.
   - exfalso. eapply value_balance_not_panic; eauto.
